@@ -305,6 +305,12 @@ func runC15(c *eng.Ctx) {
 	ruleLockPairing(c, "server/api.go", "server/signal.go")
 	c.Floor(3)
 
+	// ---- R11.1 (shared) storing a cursor needs a second permission, Publish on the cursors stream, checked inside
+	// api.Publish: nothing may be remembered before that publish succeeded
+	c.Rule("R11.1", "K1")
+	ruleCursorPublishThenCache(c)
+	c.Floor(4)
+
 	// ---- R15.6 config key agreement
 	runConfigKeyAgreement(c, "R15.6")
 }
